@@ -11,7 +11,7 @@ enum { DRV_DIRECT = 0, DRV_GSSV = 1, DRV_GSSVX = 2 };
 typedef struct {
     int driver;               /* DRV_* */
     int as_nr;                /* A handed over row-wise (drivers only) */
-    int nrhs;
+    int nrhs; int ldb_extra;            /* rows of padding below B and X (leading dimension n + ldb_extra) */
     int ordering;             /* 0..3 get_perm_c spec */
     int nprocs;
     int w, relax, maxsuper, rowblk, colblk;
@@ -23,7 +23,7 @@ typedef struct {
     int trans;                /* gssvx: NOTRANS/TRANS/CONJ */
     int fact;                 /* gssvx: DOFACT/EQUILIBRATE */
     long lwork;               /* gssvx/direct: 0, or >0 user buffer bytes */
-    int fill7, fill8;         /* sp_ienv(7), sp_ienv(8) (U / Lsub size estimates) */
+    int fill7, fill8; int fill6;        /* sp_ienv(6): L-values estimate (0 = default -50) */         /* sp_ienv(7), sp_ienv(8) (U / Lsub size estimates) */
 } fcfg_t;
 
 static void fcfg_default(fcfg_t *c) {
@@ -33,8 +33,8 @@ static void fcfg_default(fcfg_t *c) {
     c->fill7 = -50; c->fill8 = -30;
 }
 static int fcfg_str(const fcfg_t *c, char *b, size_t bl) {
-    int o = snprintf(b, bl, "drv=%d nr=%d nrhs=%d ord=%d P=%d w=%d rlx=%d ms=%d rb=%d cb=%d u=%g sym=%d dyn=%d tr=%d fact=%d lwork=%ld f7=%d f8=%d",
-                     c->driver, c->as_nr, c->nrhs, c->ordering, c->nprocs, c->w, c->relax, c->maxsuper, c->rowblk, c->colblk, c->u,
+    int o = snprintf(b, bl, "drv=%d nr=%d nrhs=%d ldbx=%d ord=%d P=%d w=%d rlx=%d ms=%d rb=%d cb=%d u=%g sym=%d dyn=%d tr=%d fact=%d lwork=%ld f7=%d f8=%d",
+                     c->driver, c->as_nr, c->nrhs, c->ldb_extra, c->ordering, c->nprocs, c->w, c->relax, c->maxsuper, c->rowblk, c->colblk, c->u,
                      c->symmetric, c->dyn, c->trans, c->fact, c->lwork, c->fill7, c->fill8);
     if (c->forced) { o += snprintf(b + o, bl - o, " force="); for (int i = 0; i < NMAX && o < (int)bl - 4; i++) { if (c->force_pos[i] < 0) break; o += snprintf(b + o, bl - o, "%d", c->force_pos[i]); } }
     return o;
@@ -51,7 +51,7 @@ typedef struct {
     int lcolcnt[NMAX];        /* actual number of rows (incl. diagonal) of column j of L */
     int nsupr_of[NMAX];       /* rows of the L supernode that holds column j (= values stored for column j) */
     ldc A[NMAX][NMAX];        /* dense copy of the input */
-    ldc X[NMAX * 3], B0[NMAX * 3], Bout[NMAX * 3];
+    ldc X[NMAX * 3], B0[NMAX * 3], Bout[NMAX * 3]; int pad_touched;
     int a_changed, b_changed;
     int usepr_after;
     long heap_before, heap_after_destroy; int leak_blocks; char leak_desc[200];
@@ -137,7 +137,7 @@ static int run_factor_case(const tmat_t *T, const fcfg_t *c, fres_t *r)
     tm_to_dense(T, r->A);
     for (int i = 0; i < n; i++) for (int j = 0; j < n; j++) r->A[i][j] = S2L(L2S(r->A[i][j]));     /* the matrix of the problem is what the library is handed: working precision */
     vf_ienv[1] = c->w; vf_ienv[2] = c->relax; vf_ienv[3] = c->maxsuper; vf_ienv[4] = c->rowblk; vf_ienv[5] = c->colblk;
-    vf_ienv[6] = -50; vf_ienv[7] = c->fill7; vf_ienv[8] = c->fill8;
+    vf_ienv[6] = c->fill6 ? c->fill6 : -50; vf_ienv[7] = c->fill7; vf_ienv[8] = c->fill8;
     if (c->dyn) setenv("SuperLU_DYNAMIC_SNODE_STORE", "1", 1); else unsetenv("SuperLU_DYNAMIC_SNODE_STORE");
     vf_slot.active = 0; vf_slot.overflow = 0;
     vf_xerbla_calls = 0;
@@ -157,16 +157,18 @@ static int run_factor_case(const tmat_t *T, const fcfg_t *c, fres_t *r)
         /* round B to working precision: what the library sees */
         r->B0[k * ldb + i] = S2L(L2S(s));
     }
-    scalar_t *bmat = vf_tmp_scalars(ldb * nrhs), *xmat = vf_tmp_scalars(ldb * nrhs);
-    for (int k = 0; k < ldb * nrhs; k++) { bmat[k] = L2S(r->B0[k]); memset(&xmat[k], 0x55, sizeof(scalar_t)); }
+    int ldl = ldb + (c->ldb_extra > 0 ? c->ldb_extra : 0);        /* leading dimension the library is given */
+    scalar_t *bmat = vf_tmp_scalars(ldl * nrhs), *xmat = vf_tmp_scalars(ldl * nrhs);
+    for (int k = 0; k < ldl * nrhs; k++) { memset(&bmat[k], 0x33, sizeof(scalar_t)); memset(&xmat[k], 0x55, sizeof(scalar_t)); }
+    for (int k = 0; k < nrhs; k++) for (int i = 0; i < ldb; i++) bmat[k * ldl + i] = L2S(r->B0[k * ldb + i]);
     SuperMatrix B, X, L, U, AC;
     memset(&L, 0, sizeof L); memset(&U, 0, sizeof U);
 
     vf_heap_mark_t hm0 = vf_heap_mark(); long seq0 = vf_alloc_calls; long bf0 = vf_bad_free; long thr0 = vf_threads_created;
     r->heap_before = hm0.nlive;
 
-    XCreate_Dense_Matrix(&B, n, nrhs, bmat, ldb, SLU_DN, SLU_DT, SLU_GE);
-    XCreate_Dense_Matrix(&X, n, nrhs, xmat, ldb, SLU_DN, SLU_DT, SLU_GE);
+    XCreate_Dense_Matrix(&B, n, nrhs, bmat, ldl, SLU_DN, SLU_DT, SLU_GE);
+    XCreate_Dense_Matrix(&X, n, nrhs, xmat, ldl, SLU_DN, SLU_DT, SLU_GE);
     int_t *perm_r = malloc(sizeof(int_t) * (n + 1)), *perm_c = malloc(sizeof(int_t) * (n + 1));
     for (int i = 0; i < n; i++) { perm_r[i] = c->forced ? c->force_pos[i] : -7; perm_c[i] = i; }
     int_t info = -999;
@@ -215,10 +217,13 @@ static int run_factor_case(const tmat_t *T, const fcfg_t *c, fres_t *r)
     for (int i = 0; i < n; i++) { r->perm_r[i] = perm_r[i]; r->perm_c[i] = perm_c[i]; }
     r->a_changed = am_unchanged(&am);
     const scalar_t *sol = (c->driver == DRV_GSSVX) ? xmat : bmat;
-    for (int k = 0; k < ldb * nrhs; k++) { r->X[k] = S2L(sol[k]); r->Bout[k] = S2L(bmat[k]); }
+    for (int k = 0; k < nrhs; k++) for (int i = 0; i < ldb; i++) { r->X[k * ldb + i] = S2L(sol[k * ldl + i]); r->Bout[k * ldb + i] = S2L(bmat[k * ldl + i]); }
     { /* was B left as passed? (bitwise) */
-        int ch = 0; for (int k = 0; k < ldb * nrhs; k++) { scalar_t b0 = L2S(r->B0[k]); if (memcmp(&b0, &bmat[k], sizeof b0)) ch = 1; }
+        int ch = 0; for (int k = 0; k < nrhs; k++) for (int i = 0; i < ldb; i++) { scalar_t b0 = L2S(r->B0[k * ldb + i]); if (memcmp(&b0, &bmat[k * ldl + i], sizeof b0)) ch = 1; }
         r->b_changed = ch;
+        /* the padding rows between the columns of B and X belong to the caller */
+        for (int k = 0; k < nrhs; k++) for (int i = ldb; i < ldl; i++) { const unsigned char *pb = (const unsigned char *)&bmat[k * ldl + i], *px = (const unsigned char *)&xmat[k * ldl + i];
+            for (size_t q = 0; q < sizeof(scalar_t); q++) { if (pb[q] != 0x33) r->pad_touched = 1; if (px[q] != 0x55) r->pad_touched = 2; } }
     }
     r->have_lu = (info >= 0 && info <= n && L.Store && U.Store);
     if (info == 0 && r->have_lu) {
